@@ -41,32 +41,68 @@ Proof.
   destruct r; reflexivity.
 Qed.
 
+Lemma w_col_swap_in_rows_length h mem cola colb r0 r1 m' :
+  valid h mem -> (cola < h_ncols h)%nat -> (colb < h_ncols h)%nat -> (r0 <= r1)%nat -> (r1 <= h_nrows h)%nat ->
+  w_col_swap_in_rows h cola colb r0 r1 mem = WMat.Ok m' -> List.length m' = List.length mem.
+Proof.
+  intros Hv Ha Hb Hr01 Hr1 Hw.
+  destruct (w_col_swap_in_rows_ok h mem cola colb r0 r1 Hv Ha Hb Hr01 Hr1) as (m2 & E2 & L2 & _).
+  rewrite Hw in E2. apply wok_inj in E2. now subst.
+Qed.
+
+(** all cases: the final memory holds the model's words in block 1 (and possibly the local array in block 2) *)
+Lemma run_col_swap_in_rows d h fl mem cola colb r0 r1 m' :
+  valid h mem -> c_dom h fl mem -> (cola < h_ncols h)%nat -> (colb < h_ncols h)%nat -> (r0 <= r1)%nat -> (r1 <= h_nrows h)%nat ->
+  w_col_swap_in_rows h cola colb r0 r1 mem = WMat.Ok m' ->
+  exists mfin,
+    run zops access_prog LFUEL (S (S d)) "mzd_col_swap_in_rows"
+        (hbundle h fl [Vint (Z.of_nat cola); Vint (Z.of_nat colb); Vint (Z.of_nat r0); Vint (Z.of_nat r1)]) (mem_of (words mem)) =
+    Ok (None, mfin) /\ read_back mfin (List.length (words m')) = Some (words m').
+Proof.
+  intros Hv Hd Ha Hb Hr01 Hr1 Hw.
+  destruct (Nat.eq_dec cola colb) as [Eab|Nab].
+  { assert (m' = mem).
+    { unfold w_col_swap_in_rows in Hw. destruct (Nat.eqb_spec cola colb); [|contradiction]. now apply wok_inj in Hw. }
+    subst m'. exists (mem_of (words mem)). split; [|apply read_back_mem_of]. apply run_col_swap_trivial; auto. }
+  destruct (Nat.eq_dec r0 r1) as [Er|Nr].
+  { assert (m' = mem).
+    { unfold w_col_swap_in_rows in Hw. destruct (Nat.eqb_spec cola colb); [contradiction|]. cbv zeta in Hw.
+      destruct (Nat.eqb_spec (r1 - r0) 0); [|lia]. now apply wok_inj in Hw. }
+    subst m'. exists (mem_of (words mem)). split; [|apply read_back_mem_of]. apply run_col_swap_trivial; auto. }
+  destruct (Nat.eq_dec (cola / 64) (colb / 64)) as [Ew|Nw].
+  - destruct (run_col_swap_same d h fl mem cola colb r0 r1 m' Hv Hd Ha Hb Hr01 Hr1 Ew Nab ltac:(lia) Hw) as (dfin & Hrun).
+    exists (mem2 (words m') 4 dfin). split; [exact Hrun|apply read_back_mem2].
+  - exists (mem_of (words m')). split; [now apply run_col_swap_diff|apply read_back_mem_of].
+Qed.
+
 Theorem acc_col_swap_in_rows_w h fl mem cola colb r0 r1 m' :
   valid h mem -> c_dom h fl mem -> (cola < h_ncols h)%nat -> (colb < h_ncols h)%nat -> (r0 <= r1)%nat -> (r1 <= h_nrows h)%nat ->
   w_col_swap_in_rows h cola colb r0 r1 mem = WMat.Ok m' ->
   run_acc "mzd_col_swap_in_rows" (hbundle h fl [zi cola; zi colb; zi r0; zi r1]) (words mem) = Ok (None, words m').
 Proof.
   intros Hv Hd Ha Hb Hr01 Hr1 Hw. unfold zi.
-  assert (Hlen : List.length m' = List.length mem).
-  { destruct (w_col_swap_in_rows_ok h mem cola colb r0 r1 Hv Ha Hb Hr01 Hr1) as (m2 & E2 & L2 & _).
-    rewrite Hw in E2. apply wok_inj in E2. now subst. }
-  destruct (Nat.eq_dec cola colb) as [Eab|Nab].
-  { assert (m' = mem).
-    { unfold w_col_swap_in_rows in Hw. destruct (Nat.eqb_spec cola colb); [|contradiction]. now apply wok_inj in Hw. }
-    subst m'. apply run_acc_intro; [reflexivity|]. change DEPTH with (S (S 10)).
-    apply run_col_swap_trivial; auto. }
-  destruct (Nat.eq_dec r0 r1) as [Er|Nr].
-  { assert (m' = mem).
-    { unfold w_col_swap_in_rows in Hw. destruct (Nat.eqb_spec cola colb); [contradiction|]. cbv zeta in Hw.
-      destruct (Nat.eqb_spec (r1 - r0) 0); [|lia]. now apply wok_inj in Hw. }
-    subst m'. apply run_acc_intro; [reflexivity|]. change DEPTH with (S (S 10)).
-    apply run_col_swap_trivial; auto. }
-  destruct (Nat.eq_dec (cola / 64) (colb / 64)) as [Ew|Nw].
-  - destruct (run_col_swap_same 10 h fl mem cola colb r0 r1 m' Hv Hd Ha Hb Hr01 Hr1 Ew Nab ltac:(lia) Hw) as (dfin & Hrun).
-    apply (run_acc_intro2 _ _ _ None _ _ ltac:(now rewrite !words_length) Hrun).
-    apply read_back_mem2.
-  - apply run_acc_intro; [now rewrite !words_length|]. change DEPTH with (S (S 10)).
-    now apply run_col_swap_diff.
+  destruct (run_col_swap_in_rows 10 h fl mem cola colb r0 r1 m' Hv Hd Ha Hb Hr01 Hr1 Hw) as (mfin & Hrun & Hback).
+  apply (run_acc_intro2 _ _ (words mem) None (words m') mfin).
+  - rewrite !words_length. exact (w_col_swap_in_rows_length h mem cola colb r0 r1 m' Hv Ha Hb Hr01 Hr1 Hw).
+  - exact Hrun.
+  - exact Hback.
+Qed.
+
+(** mzd_col_swap (mzd.h:424) = mzd_col_swap_in_rows(M, cola, colb, 0, M->nrows) *)
+Theorem acc_col_swap_w h fl mem cola colb m' :
+  valid h mem -> c_dom h fl mem -> (cola < h_ncols h)%nat -> (colb < h_ncols h)%nat ->
+  w_col_swap_in_rows h cola colb 0 (h_nrows h) mem = WMat.Ok m' ->
+  run_acc "mzd_col_swap" (hbundle h fl [zi cola; zi colb]) (words mem) = Ok (None, words m').
+Proof.
+  intros Hv Hd Ha Hb Hw. unfold zi.
+  destruct (run_col_swap_in_rows 9 h fl mem cola colb 0 (h_nrows h) m' Hv Hd Ha Hb ltac:(lia) ltac:(lia) Hw) as (mfin & Hrun & Hback).
+  apply (run_acc_intro2 _ _ (words mem) None (words m') mfin).
+  - rewrite !words_length.
+    exact (w_col_swap_in_rows_length h mem cola colb 0 (h_nrows h) m' Hv Ha Hb ltac:(lia) ltac:(lia) Hw).
+  - change DEPTH with (S (S (S 9))). unfold hbundle in *.
+    cm_enter "mzd_col_swap"%string f_mzd_col_swap. cm_run.
+    cbn [Z.of_nat] in Hrun. rewrite Hrun. cm_run. reflexivity.
+  - exact Hback.
 Qed.
 
 (** against the matrix model, with the frame *)
@@ -79,4 +115,15 @@ Proof.
   intros Hv Hd Ha Hb Hr01 Hr1.
   destruct (w_col_swap_in_rows_ok h mem cola colb r0 r1 Hv Ha Hb Hr01 Hr1) as (m' & E & R).
   exists m'. split; [|exact R]. now apply acc_col_swap_in_rows_w.
+Qed.
+
+Theorem mzd_col_swap_spec h fl mem cola colb :
+  valid h mem -> c_dom h fl mem -> (cola < h_ncols h)%nat -> (colb < h_ncols h)%nat ->
+  exists m', run_acc "mzd_col_swap" (hbundle h fl [zi cola; zi colb]) (words mem) = Ok (None, words m') /\
+    List.length m' = List.length mem /\ mem_ok m' /\
+    abs h m' = col_swap (abs h mem) cola colb /\ outside h mem m'.
+Proof.
+  intros Hv Hd Ha Hb.
+  destruct (w_col_swap_in_rows_ok h mem cola colb 0 (h_nrows h) Hv Ha Hb ltac:(lia) ltac:(lia)) as (m' & E & R).
+  exists m'. split; [now apply acc_col_swap_w|]. unfold col_swap. now rewrite nr_abs.
 Qed.
